@@ -1,5 +1,7 @@
 import A2Verif.Model.Hex
 import A2Verif.Model.Detok
+import A2Verif.Model.Retok
+import A2Verif.Model.Merlin
 /-!
 driver family `c14` — requests (bytes as upper-case hex, empty = `-`, numbers decimal):
 
@@ -9,6 +11,13 @@ driver family `c14` — requests (bytes as upper-case hex, empty = `-`, numbers 
 * `c14 wfI <hex>`               → `true <line numbers>` | `false`
 * `c14 asmA <addr> <num>:<hex> …` → `ok <hex>` | `panic`   (Applesoft framing of tokenized lines)
 * `c14 asmI <num>:<hex> …`      → `ok <hex>` | `err`       (Integer BASIC framing)
+* `c14 retokA <addr> <hex of listing>` → `ok <hex>` | `err` | `panic`  (reference re-tokenizer, head blanks stripped)
+* `c14 stripA <addr> <hex>`      → `ok <hex>` | `err`   (`stripHead`: blanks after REM/DATA removed, links recomputed)
+* `c14 classA <addr> <hex>`      → `true` | `false`     (class of the model-level round-trip theorem)
+* `c14 rtA <addr> <hex>`         → `holds` | `fails` | `out-of-class`  (`retokA (detokA t) = stripHead t` on the model)
+* `c14 detokM <hex>`            → `ok <hex of text>` | `err`   (Merlin detokenizer + column formatter; runs of blanks collapsed)
+* `c14 wfM <hex>`               → `true` | `false`
+* `c14 numI <value>`            → `<hex>` of the Integer BASIC number token for the value
 -/
 namespace A2Verif.Drv.C14
 open A2Verif.Detok A2Verif.Hex
@@ -27,6 +36,11 @@ def parseLine (s : String) : Option Line :=
     | some num, some body => if num < 65536 then some { num := num, body := body } else none
     | _, _ => none
   | _ => none
+
+def collapseBlanks : List Nat → List Nat
+  | 32 :: 32 :: rest => collapseBlanks (32 :: rest)
+  | c :: rest => c :: collapseBlanks rest
+  | [] => []
 
 def handle (toks : List String) : String :=
   match toks with
@@ -51,6 +65,41 @@ def handle (toks : List String) : String :=
     match a.toNat?, ls.mapM parseLine with
     | some addr, some lines => if addr < 65536 then showOutcome (assembleA addr lines) else "bad-request"
     | _, _ => "bad-request"
+  | ["retokA", a, h] =>
+    match a.toNat?, ofHex h with
+    | some addr, some txt => if addr < 65536 then showOutcome (retokA addr txt) else "bad-request"
+    | _, _ => "bad-request"
+  | ["stripA", a, h] =>
+    match a.toNat?, ofHex h with
+    | some addr, some bs => if addr < 65536 then showOutcome (stripHeadA addr bs) else "bad-request"
+    | _, _ => "bad-request"
+  | ["classA", a, h] =>
+    match a.toNat?, ofHex h with
+    | some addr, some bs => if classA addr bs then "true" else "false"
+    | _, _ => "bad-request"
+  | ["rtA", a, h] =>
+    -- the round-trip statement of the property on the model, evaluated on one stream
+    match a.toNat?, ofHex h with
+    | some addr, some bs =>
+      if !(WF_A addr bs && classA addr bs) then "out-of-class"
+      else match detokA bs with
+        | .ok s => if retokA addr s == stripHeadA addr bs then "holds" else "fails"
+        | _ => "fails"
+    | _, _ => "bad-request"
+  | ["detokM", h] =>
+    -- listing compared modulo the amount of padding (runs of blanks collapsed): column widths are layout,
+    -- not something the property constrains
+    match ofHex h with
+    | some bs => showOutcome ((A2Verif.Merlin.detokM bs).map collapseBlanks)
+    | none => "bad-request"
+  | ["wfM", h] =>
+    match ofHex h with
+    | some bs => if A2Verif.Merlin.WF_M bs then "true" else "false"
+    | none => "bad-request"
+  | ["numI", v] =>
+    match v.toNat? with
+    | some n => if n < 32768 then toHex (numTokI n) else "bad-request"
+    | none => "bad-request"
   | "asmI" :: ls =>
     match ls.mapM parseLine with
     | some lines => showOutcome (assembleI lines)
